@@ -392,7 +392,8 @@ def campaign(draw, mixes=MIXES, boom: bool = False, deep: bool = False):
             elif k < 13:
                 steps.append(["in", {draw(st.sampled_from(["In1", "In2", "Temp"])): float(draw(st.sampled_from([0, 1, 2, 3, 5, 8, 10])))}])
             elif k < 16:
-                steps.append(["cancel" if draw(st.booleans()) else "force", draw(st.integers(0, 5))])
+                steps.append([("cancel" if draw(st.booleans()) else "force") + ("@read" if boom and draw(st.integers(0, 2)) == 0 else ""),
+                              draw(st.integers(0, 5))])
             else:
                 op = draw(st.sampled_from(["append", "append", "replace", "insert", "delete"]))
                 text = draw(st.sampled_from(["Mark: me%d" % n, "Quick: qe%d" % n, "Wait: 0.2s", "Zork: %d" % (900 + n), "Bad: %d" % (900 + n),
@@ -448,7 +449,7 @@ def valid(case) -> bool:
                 if not (isinstance(s[1], dict) and all(k in ("In1", "In2", "Temp") and isinstance(v, (int, float)) and not isinstance(v, bool)
                                                         and -1e6 <= v <= 1e6 for k, v in s[1].items())):
                     return False
-            elif s[0] in ("cancel", "force"):
+            elif s[0] in ("cancel", "force", "cancel@read", "force@read"):
                 if not (isinstance(s[1], int) and not isinstance(s[1], bool) and 0 <= s[1] <= 1000):
                     return False
             elif s[0] == "edit":
@@ -526,7 +527,7 @@ class Campaign:
     """executes the steps of a case; `on_tick(rec)` style access through self.recs"""
 
     def __init__(self, case, with_runlog: bool):
-        from vp.harness.engine_h import EngineHarness, MethodEditError
+        from vp.harness.engine_h import EngineHarness, MethodEditError, VT
         self.MethodEditError = MethodEditError
         self.case = case
         self.with_runlog = with_runlog
@@ -548,6 +549,22 @@ class Campaign:
         # raises in its iteration k (k >= 1, i.e. an instance that is already running).  Installed from the outside on the command
         # builders of the harness unit.
         self.fault_armed = 0
+        # a cancel / force request that is served while a tick is in its hardware read phase (steps "cancel@read" / "force@read"):
+        # in production the request thread can take the engine lock between the moment the timer took the tick time and the
+        # moment the tick takes the lock.  Single threaded equivalent: the request is made from inside the hardware read call
+        # (the tick does not hold the lock there) and the clock has moved on a little since the tick time was taken.
+        self.inread = None
+        orig_read = self.h.hw.read
+
+        def read(reg):
+            if self.inread is not None:
+                what, k = self.inread
+                self.inread = None
+                VT.now = VT.now + 0.03
+                self.cancel_force(what, k)
+                self.info["inread_requests"] = self.info.get("inread_requests", 0) + 1
+            return orig_read(reg)
+        self.h.hw.read = read   # type: ignore
         for name in ("Slow", "OvA", "OvB"):
             builder = self.h.uod.command_factories[name]
             builder.exec_fn = self._faulting(builder.exec_fn)
@@ -702,6 +719,8 @@ class Campaign:
                 self.h.set_inputs(**s[1])
             elif s[0] == "edit":
                 self.edit(s[1])
+            elif s[0] in ("cancel@read", "force@read"):
+                self.inread = (s[0].split("@")[0], s[1])
             elif s[0] == "fault":
                 self.fault_armed = int(s[1])
                 self.foreign = True
